@@ -43,7 +43,7 @@ M = [
  # ---- C05 / C06
  ("C05", "xfab/tools.py", "    if Laue_class == '6/m':\n        segm = n.array([[[ 0, 0,  0], [ 1, 0, 0], [ 1, 1, 0], [ 0, 0,  1]],\n                        [[ 1, 2,  0], [ 0, 1, 0], [ 1, 1, 0], [ 0, 0,  1]]])", "    if Laue_class == '6/m':\n        segm = n.array([[[ 0, 0,  0], [ 1, 0, 0], [ 1, 1, 0], [ 0, 0,  1]],\n                        [[ 1, 2,  0], [ 0, 1, 0], [ 1, 2, 0], [ 0, 0,  1]]])", "genhkl_base: segment table entry for 6/m"),
  ("C05", "xfab/tools.py", "    Rots = n.concatenate((spg.rot[:spg.nuniq],-spg.rot[:spg.nuniq]))", "    Rots = spg.rot[:spg.nuniq]", "genhkl_all: inversion dropped from Rots"),
- ("C05", "xfab/laue.py", "        if (abs(h+k+l))%condition != 0:\n            sysabs_type = 5", "        if (abs(h+k-l))%condition != 0:\n            sysabs_type = 5", "laue.sysabs_unique: H+K+L condition"),
+ ("C05", "xfab/laue.py", "        if (abs(-h+k+l))%condition != 0:\n            sysabs_type = 6", "        if (abs(h+k+l))%condition != 0:\n            sysabs_type = 6", "laue.sysabs_unique: -H+K+L condition (R centring)"),
  ("C05", "xfab/tools.py", "            h = -(hkl[0]+hkl[1])\n            k = hkl[0]\n            l = hkl[2]", "            h = -(hkl[0]+hkl[1])\n            k = hkl[1]\n            l = hkl[2]", "sysabs: hexagonal index permutation"),
  ("C05", "xfab/tools.py", "    if Laue_class == '-1':\n        logger.debug('Laue class : -1 %s'%unit_cell)\n        segm = n.array([[[ 0, 0,  0], [ 1, 0, 0], [ 0, 1, 0], [ 0, 0,  1]],\n                        [[-1, 0,  1], [-1, 0, 0], [ 0, 1, 0], [ 0, 0,  1]],", "    if Laue_class == '-1':\n        logger.debug('Laue class : -1 %s'%unit_cell)\n        segm = n.array([[[ 0, 0,  0], [ 1, 0, 0], [ 0, 1, 0], [ 0, 0,  1]],\n                        [[-1, 0,  1], [-1, 0, 0], [ 0, 1, 0], [ 0, 0, -1]],", "genhkl_base: triclinic segment direction (must not hide behind the open finding)"),
  ("C06", "xfab/tools.py", "                            if  sintlH > sintlmin and sintlH <= sintlmax:\n                                H = n.concatenate((H, [HLAST]))\n                                stl = n.concatenate((stl, [sintlH]))\n                        else: \n                            nref = nref - 1\n                    HNEW = HLAST + segm[segn, 1, :]\n                    sintlH = sintl(unit_cell, HNEW)\n                    #if (sintlH >= sintlmin) and (sintlH <= sintlmax):\n                    if sintlH <= sintlmax*sintl_scale:", "                            if  sintlH >= sintlmin and sintlH <= sintlmax:\n                                H = n.concatenate((H, [HLAST]))\n                                stl = n.concatenate((stl, [sintlH]))\n                        else: \n                            nref = nref - 1\n                    HNEW = HLAST + segm[segn, 1, :]\n                    sintlH = sintl(unit_cell, HNEW)\n                    #if (sintlH >= sintlmin) and (sintlH <= sintlmax):\n                    if sintlH <= sintlmax*sintl_scale:", "genhkl_base: sintlmin inclusive"),
@@ -58,15 +58,15 @@ M = [
  ("C08", "xfab/structure.py", "            site_pop = atoms[i].occ*atoms[i].symmulti/mysg.nsymop", "            site_pop = atoms[i].occ*atoms[i].symmulti/mysg.nuniq", "StructureFactor: multiplicity weighting"),
  # ---- C09
  ("C09", "xfab/tools.py", "    b = g_w[2]*normal[1] - g_w[1]*normal[2]", "    b = g_w[2]*normal[1] + g_w[1]*normal[2]", "find_omega_quart: sign in b"),
- ("C09", "xfab/laue.py", "            sineta = -2*g_t[1]/np.sin(twoth)\n            coseta = 2*g_t[2]/np.sin(twoth)\n            eta.append(np.arctan2(sineta, coseta))\n            \n    return np.array(omega), np.array(eta)\n\n\n\ndef find_omega_quart", "            sineta = 2*g_t[1]/np.sin(twoth)\n            coseta = 2*g_t[2]/np.sin(twoth)\n            eta.append(np.arctan2(sineta, coseta))\n            \n    return np.array(omega), np.array(eta)\n\n\n\ndef find_omega_quart", "laue.find_omega_general: eta sign"),
+ ("C09", "xfab/laue.py", "            omega_mat = form_omega_mat_general(omega[i], w_x, w_y)\n            g_t = np.dot(omega_mat, g_w_n)\n            sineta = -2*g_t[1]/np.sin(twoth)", "            omega_mat = form_omega_mat_general(omega[i], w_x, w_y)\n            g_t = np.dot(omega_mat, g_w_n)\n            sineta = 2*g_t[1]/np.sin(twoth)", "laue.find_omega_general: eta sign"),
  ("C09", "xfab/tools.py", "    twotheta = 2.0*n.arcsin(length*wavelength/(4*n.pi))", "    twotheta = 2.0*n.arcsin(length*wavelength/(2*n.pi))", "tth2: factor"),
  ("C09", "xfab/tools.py", "        somega = (b*g_w[0] - a*g_w[1])/(a*a + b*b)", "        somega = (b*g_w[0] + a*g_w[1])/(a*a + b*b)", "find_omega_wedge: sign"),
  # ---- C10
  ("C10", "xfab/detector.py", "    dety = n.sum(R_tilt[:, 1]*Ltv)/y_size + dety_center\n    detz = n.sum(R_tilt[:, 2]*Ltv)/z_size + detz_center\n    return [dety, detz]\n\ndef det_coor2", "    dety = n.sum(R_tilt[:, 1]*Ltv)/z_size + dety_center\n    detz = n.sum(R_tilt[:, 2]*Ltv)/y_size + detz_center\n    return [dety, detz]\n\ndef det_coor2", "det_coor: pixel sizes swapped"),
  ("C10", "xfab/detector.py", "    Ltv = n.array([tx-distance, ty, tz])+ t*v\n    dety = n.sum(R_tilt[:, 1]*Ltv)/y_size + dety_center\n    detz = n.sum(R_tilt[:, 2]*Ltv)/z_size + detz_center\n    return [dety, detz]\n\ndef det_v", "    Ltv = n.array([tx-distance, ty, tz])+ t*v\n    dety = n.sum(R_tilt[1, :]*Ltv)/y_size + dety_center\n    detz = n.sum(R_tilt[:, 2]*Ltv)/z_size + detz_center\n    return [dety, detz]\n\ndef det_v", "det_coor2: row for column of the tilt"),
  # ---- C11
- ("C11", "xfab/detector.py", "        if o11 == -1:\n            img = n.flipud(img)\n        if o22 == -1:\n            img = n.fliplr(img)\n        return img", "        if o11 == -1:\n            img = n.fliplr(img)\n        if o22 == -1:\n            img = n.flipud(img)\n        return img", "image_flipping: flips swapped (still an involution)"),
- ("C11", "xfab/detector.py", "    if radcoor[0] <= 0:", "    if radcoor[0] < 0:", "detyz_to_eta_and_radpix: <= -> <"),
+ ("C11", "xfab/detector.py", "        if o22 == -1:\n            if flipdir == 'forward':\n                img = n.flipud(img)\n            else: #inverse direction from (dety,detz) to imageformat\n                img = n.fliplr(img)", "        if o22 == -1:\n            if flipdir == 'forward':\n                img = n.fliplr(img)\n            else: #inverse direction from (dety,detz) to imageformat\n                img = n.flipud(img)", "trans_orientation: flips exchanged in the o22 branch (still undone by 'inverse')"),
+ ("C11", "xfab/detector.py", "    if radpix < 1:\n        cos_eta = 1", "    if radpix < 2:\n        cos_eta = 1", "detyz_to_eta_and_radpix: radius threshold 1 -> 2"),
  ("C11", "xfab/detector.py", "    omat = n.array([[o11, o12],\n                    [o21, o22]])\n    det_size = n.array([detz_size-1,\n                        dety_size-1])", "    omat = n.array([[o11, o12],\n                    [o21, o22]])\n    det_size = n.array([dety_size-1,\n                        detz_size-1])", "xy_to_detyz: det_size order"),
  # ---- C12
  ("C12", "xfab/symmetry.py", "        perm[17] = [[ 0,  0,  1], [ 1,  0,  0], [ 0,  1,  0]]", "        perm[17] = [[ 0,  0,  1], [ 1,  0,  0], [ 0, -1,  0]]", "cubic permutation entry"),
@@ -85,13 +85,13 @@ M = [
  ("C15", "xfab/structure.py", "        lp[i, :] = n.dot(mysg.rot[i], position) + mysg.trans[i]", "        lp[i, :] = n.dot(mysg.rot[i], position)", "multiplicity: translation dropped"),
  ("C15", "xfab/structure.py", "    for i in range(1, mysg.nsymop):\n        for j in range(multi):", "    for i in range(1, mysg.nuniq):\n        for j in range(multi):", "multiplicity: nuniq for nsymop"),
  # ---- C16
- ("C16", "xfab/atomlib.py", "'FE' : [ 11.769510, 7.357310, 3.522200, 2.304500, 4.761110,", "'FE' : [ 11.769510, 7.357310, 3.522200, 2.304500, 47.61110,", "Fe: one b coefficient x10 (f(0) unchanged)"),
+ ("C16", "xfab/atomlib.py", "0.247000, 11.396610, 64.812670, 1.19100],", "0.247000, 11.396610, -0.64812670, 1.19100],", "Cu: one width negative (f(0) unchanged, f grows at high s)"),
  ("C16", "xfab/structure.py", "    for i in range(4):\n        formfac = formfac + data[i]*n.exp(-data[i+4]*stl*stl) ", "    for i in range(3):\n        formfac = formfac + data[i]*n.exp(-data[i+4]*stl*stl) ", "FormFactor: three Gaussians"),
  # ---- C17
  ("C17", "xfab/structure.py", "                        self.remove_esd(cifblk['_atom_site_aniso_U_23'][anisonumber]),\n                        self.remove_esd(cifblk['_atom_site_aniso_U_13'][anisonumber]),", "                        self.remove_esd(cifblk['_atom_site_aniso_U_13'][anisonumber]),\n                        self.remove_esd(cifblk['_atom_site_aniso_U_23'][anisonumber]),", "CIFread: Uani order 13/23"),
  ("C17", "xfab/structure.py", "                adp = self.remove_esd(cifblk['_atom_site_B_iso_or_equiv'][i])/(8*n.pi**2)", "                adp = self.remove_esd(cifblk['_atom_site_B_iso_or_equiv'][i])/(8*n.pi)", "CIFread: Biso -> U factor"),
  ("C17", "xfab/structure.py", "            except:\n                occ = 1.0", "            except:\n                occ = 0.0", "CIFread: default occupancy"),
- ("C17", "xfab/structure.py", "                occ = float(text[i][54:60])", "                occ = float(text[i][55:60])", "PDBread: occupancy columns (visible only for full-width fields)"),
+ ("C17", "xfab/structure.py", "                occ = float(text[i][54:60])", "                occ = float(text[i][54:59])", "PDBread: occupancy columns shifted by one"),
  # ---- C18
  ("C18", "xfab/tools.py", "    for i in n.arange(-uvw, uvw):\n        for j in n.arange(-uvw, uvw):\n            for k in n.arange(-uvw, uvw):", "    for i in n.arange(-1, 2):\n        for j in n.arange(-uvw, uvw):\n            for k in n.arange(-uvw, uvw):", "reduce_cell: search range along a shrunk to +-1"),
  ("C18", "xfab/laue.py", "        if dist >  0.00001:", "        if dist >  0.5:", "laue.reduce_cell: coplanarity tolerance"),
